@@ -8,6 +8,9 @@ From EP Require Roundtrip.Eth Roundtrip.Vlan Roundtrip.Sll Roundtrip.Arp Roundtr
 (* ---- transport/control types (extend-c08b) ---- *)
 From EP Require Roundtrip.Udp Roundtrip.Icmp4 Roundtrip.Icmp6 Roundtrip.Igmp Roundtrip.Grec Roundtrip.Prefix.
 (* ---- end extend-c08b ---- *)
+(* ---- IpHeaders (extend-c08c) ---- *)
+From EP Require Roundtrip.IpHeaders.
+(* ---- end extend-c08c ---- *)
 From Coq Require Import Extraction ExtrOcamlBasic.
 Extraction Language OCaml.
 Extraction "m_c08.ml"
@@ -53,4 +56,12 @@ Extraction "m_c08.ml"
   Prefix.pi_to_bytes Prefix.pi_len Prefix.pi_from_slice Prefix.pi_from_bytes Prefix.wf_pi Prefix.pi_keep_mask
   Prefix.pi_layout
   (* ---- end extend-c08b ---- *)
+  (* ---- IpHeaders (extend-c08c): only additions behind everything else, so that the names the
+     monolithic extraction gives to the earlier items do not change ---- *)
+  IpHeaders.iph_from_slice IpHeaders.iph_from_ipv4_slice IpHeaders.iph_from_ipv6_slice IpHeaders.iph_read
+  IpHeaders.iph_write_code IpHeaders.iph_header_len IpHeaders.iph_next_header_code IpHeaders.iph_set_next_headers
+  IpHeaders.iph_set_payload_len IpHeaders.iph_wf IpHeaders.iph_is_fragmenting_payload IpHeaders.iph_written
+  IpHeaders.iph_checksum_ok IpHeaders.iph_announced IpHeaders.ls_code
+  ExtChain.Model.exts6_valid ExtChain.Model.exts6_default
+  (* ---- end extend-c08c ---- *)
   tcp_layout ipv4_layout frag_layout.
